@@ -321,6 +321,9 @@ def run(rep: Report, ctx: Any) -> str:
     # (vii) optional values of the document handed to operations that reject None
     _none_operations(rep, ctx, [f for f in funcs if not f.module.name.startswith(f"{PKG}.schema") or f in validators], validators)
 
+    # (viii) positional element accesses on document sequences that may be too short
+    _positional_accesses(rep, ctx, [f for f in funcs if not f.module.name.startswith(f"{PKG}.schema") or f in validators], validators)
+
     # ------------------------------------------------------------------------------------------------- R06.3
     rep.floor("dispatch_sites", len(ji.dispatches), 40)
     for dk, d in sorted(ji.dispatches.items(), key=lambda kv: (kv[1].template, kv[1].macro, kv[1].expr)):
@@ -2933,6 +2936,196 @@ _TRUTHY: tuple = ("truthy",)
 _FALSY: tuple = ("falsy",)
 _NONE: tuple = ("k", "c", None)
 _PURE_CALLS = _READONLY | _WRAPPERS | {"next", "filter", "map", "range", "hasattr", "getattr", "callable", "format", "pformat"}
+
+
+# ---------------------------------------------------------------------------------------------------------------------------------
+# R06.2 (viii).  The document decides how long its lists and texts are - the empty one is always among the inputs.  Taking the element
+# at a fixed position (`x[0]`, `x[-1]`, `next(iter(x))`, `x.pop()`) is total only where the length is known to suffice.
+
+def _positional_uses(fn: ast.AST) -> list[tuple[str, ast.AST, ast.expr, int, tuple[str, ...]]]:
+    """(operation, node, sequence, elements needed, exceptions raised when there are fewer)"""
+    out: list[tuple[str, ast.AST, ast.expr, int, tuple[str, ...]]] = []
+    for n in _own_nodes(fn):
+        if isinstance(n, ast.Subscript) and isinstance(n.ctx, ast.Load):
+            i = n.slice
+            neg = isinstance(i, ast.UnaryOp) and isinstance(i.op, ast.USub)
+            i = i.operand if neg else i  # type: ignore[union-attr]
+            if isinstance(i, ast.Constant) and isinstance(i.value, int) and not isinstance(i.value, bool):
+                need = i.value if neg else i.value + 1
+                if need > 0:
+                    out.append((f"[{'-' if neg else ''}{i.value}]", n, n.value, need, ("IndexError",)))
+        elif isinstance(n, ast.Call) and call_name(n) == "next" and len(n.args) == 1 and not n.keywords:
+            a = n.args[0]
+            a = a.args[0] if isinstance(a, ast.Call) and call_name(a) in ("iter", "reversed") and len(a.args) == 1 else a
+            out.append(("next()", n, a, 1, ("StopIteration",)))
+        elif isinstance(n, ast.Call) and isinstance(n.func, ast.Attribute) and n.func.attr in ("pop", "popleft", "popitem") and not n.args \
+                and not n.keywords:
+            out.append((f".{n.func.attr}()", n, n.func.value, 1, ("IndexError", "KeyError")))
+    return out
+
+
+def _known_length(e: ast.AST | None, lc: Any, it: Any, seen: frozenset[str] = frozenset()) -> int:
+    """a number of elements the value has whatever the document says: a display, the result of split(sep) / partition(sep), a tuple
+    of known shape; a local has the least of what its definitions have"""
+    if e is None:
+        return 0
+    av = it.node_av.get(id(e))
+    if av is not None and av.tup is not None:
+        return len(av.tup)
+    if isinstance(e, (ast.Tuple, ast.List)):
+        return sum(1 for x in e.elts if not isinstance(x, ast.Starred))
+    if isinstance(e, ast.Call) and isinstance(e.func, ast.Attribute):
+        if e.func.attr in ("split", "rsplit") and e.args and not (isinstance(e.args[0], ast.Constant) and e.args[0].value is None):
+            return 1
+        if e.func.attr in ("partition", "rpartition"):
+            return 3
+    if isinstance(e, ast.Name) and e.id not in seen:
+        defs = lc.defs.get(e.id, [])
+        if defs and all(k == "assign" and v is not None for k, _, v in defs):
+            return min(_known_length(v, lc, it, seen | {e.id}) for _, _, v in defs)
+    return 0
+
+
+def _length_bound(atom: ast.expr, val: bool, text: str, f: FuncInfo, ix: Any) -> int:
+    """the least number of elements `text` has when the atom of a test has the truth value val: its own truth (a non-empty
+    container), or a comparison of its len() with an integer constant (written out, or a constant of a module)"""
+    def const(e: ast.expr) -> int | None:
+        if isinstance(e, ast.Constant):
+            return e.value if isinstance(e.value, int) and not isinstance(e.value, bool) else None
+        d = dotted(e)
+        r = ix.resolve(f.module, d) if d else None
+        if r is not None and r[0] == "var":
+            v = r[1][0].variables.get(r[1][1])
+            return const(v) if isinstance(v, ast.Constant) else None
+        return None
+
+    def is_len(e: ast.expr) -> bool:
+        return isinstance(e, ast.Call) and call_name(e) == "len" and len(e.args) == 1 and norm(e.args[0]) == text
+
+    if norm(_strip_len(atom)) == text:
+        return 1 if val else 0
+    if not (isinstance(atom, ast.Compare) and len(atom.ops) == 1):
+        return 0
+    op, left, right = type(atom.ops[0]), atom.left, atom.comparators[0]
+    if is_len(right) and not is_len(left):
+        left, right = right, left
+        op = {ast.Gt: ast.Lt, ast.Lt: ast.Gt, ast.GtE: ast.LtE, ast.LtE: ast.GtE}.get(op, op)
+    k = const(right) if is_len(left) else None
+    if k is None:
+        return 0
+    if val:
+        return {ast.Eq: k, ast.Gt: k + 1, ast.GtE: k}.get(op, 0)
+    return {ast.NotEq: k, ast.Lt: k, ast.LtE: k + 1}.get(op, 0)
+
+
+def _long_enough(f: FuncInfo, ix: Any, node: ast.AST, seq: ast.expr, need: int) -> bool:
+    """on every way to the access a test has established that the sequence (same text) has at least `need` elements - inside the
+    expression (arms of a conditional expression, later operands of and / or, the conditions of a comprehension) or on every path
+    of the statement CFG from the function's entry and from every statement that binds the sequence anew"""
+    from ..astutil import stmt_of
+    from ..cfg import own_exprs
+
+    text = norm(seq)
+    found = False
+
+    def enough(facts: list[tuple[ast.expr, bool]]) -> bool:
+        return any(_length_bound(a, v, text, f, ix) >= need for a, v in facts)
+
+    def rec(cur: ast.AST, guarded: bool) -> None:
+        nonlocal found
+        if cur is node:
+            found = found or guarded
+            return
+        if isinstance(cur, ast.IfExp):
+            rec(cur.test, guarded)
+            rec(cur.body, guarded or enough(_implied(cur.test, True)))
+            rec(cur.orelse, guarded or enough(_implied(cur.test, False)))
+            return
+        if isinstance(cur, ast.BoolOp):
+            g = guarded
+            for v in cur.values:
+                rec(v, g)
+                g = g or enough(_implied(v, isinstance(cur.op, ast.And)))
+            return
+        if isinstance(cur, (ast.ListComp, ast.SetComp, ast.GeneratorExp, ast.DictComp)):
+            g = guarded
+            for gen in cur.generators:
+                rec(gen.iter, g)
+                for c in gen.ifs:
+                    rec(c, g)
+                    g = g or enough(_implied(c, True))
+            for part in ([cur.key, cur.value] if isinstance(cur, ast.DictComp) else [cur.elt]):
+                rec(part, g)
+            return
+        for k in ast.iter_child_nodes(cur):
+            if not isinstance(k, (ast.stmt, ast.ExceptHandler)):
+                rec(k, guarded)
+
+    st = stmt_of(f.node, node)
+    if st is None:
+        return False
+    for e in own_exprs(st):
+        rec(e, False)
+    if found:
+        return True
+    fl = _Flow(f, ix)
+    root = _root(seq) if isinstance(seq, (ast.Attribute, ast.Subscript)) else (seq.id if isinstance(seq, ast.Name) else None)
+
+    def rebinds(s_: object) -> bool:
+        if not isinstance(s_, ast.AST) or s_ is st:
+            return False
+        for n in walk_own(s_):  # type: ignore[arg-type]
+            if isinstance(n, (ast.Name, ast.Attribute, ast.Subscript)) and isinstance(getattr(n, "ctx", None), (ast.Store, ast.Del)) \
+                    and (norm(n) == text or (isinstance(n, ast.Name) and n.id == root)):
+                return True
+        return isinstance(s_, ast.ExceptHandler) and s_.name == root
+
+    def passes_guard(a: object, lab: bool | None) -> bool:
+        if lab is None or not isinstance(a, (ast.If, ast.While)):
+            return False
+        return enough(_implied(a.test, lab))
+
+    starts = [_ENTRY] + [s_ for s_ in fl.cfg.stmts() if rebinds(s_)]
+    edges0 = [(a, lab, b) for a in starts for b, lab in fl.out(a)]
+    return not fl.reach(edges0, [st], stop_edge=passes_guard)
+
+
+def _positional_accesses(rep: Report, ctx: Any, funcs: list[FuncInfo], validators: list[FuncInfo]) -> None:
+    """Instances: every access to the element at a fixed position - `x[i]` with an integer constant i, `next(iter(x))` without a
+    default, `x.pop()` - whose sequence the abstract interpreter derives from the document; inside a pydantic validation callback
+    every such access (all it handles is the document, and what it raises besides ValueError / AssertionError is not wrapped).
+    Obligation: the sequence has that many elements whatever the document says (a display, split(sep), a tuple of known shape), or
+    a test of its truth / of its len() against a constant has established it on every way there, or a try around the access (in a
+    private helper: around every call of it) catches what the access raises on a sequence that is too short."""
+    from ..astutil import Locals, role_anon
+
+    ix = ctx.py
+    it, _ = ctx.flow
+    n_acc = 0
+    for f in funcs:
+        lc = None
+        for what, node, seq, need, excs in _positional_uses(f.node):
+            av = it.node_av.get(id(seq))
+            derived = av is not None and bool(av.labels & {RAW, RAW_NONSTR, UNKNOWN})
+            if not derived and f not in validators:
+                continue
+            if av is not None and av.types and av.types <= {"dict", "None"}:
+                continue  # a key of a mapping, not a position
+            n_acc += 1
+            lc = lc or Locals(f.node)
+            ok = _known_length(seq, lc, it) >= need or _long_enough(f, ix, node, seq, need)
+            bad: list[str] = []
+            if not ok:
+                hs = handlers_around(f.node, node)
+                bad = [e for e in excs if not caught(e, hs)]
+                if bad and f not in validators:
+                    bad = _escaping_callers(ix, f, bad, 0)
+            rep.check(not bad, "R06.2", f"{short(f)}::element {what} of {role_anon(seq, f.node)[:50]}",
+                      f"`{norm(node)[:60]}` takes the element at a fixed position of `{norm(seq)[:40]}`, whose length the document decides "
+                      f"(an empty list / text is a possible input) and that no test has shown to have {need} element(s) on every way "
+                      f"there: {' / '.join(bad)} instead of a diagnostic" + (" (not wrapped into ValidationError)" if f in validators else ""),
+                      where(f, node), lhs=f"needs {need} element(s)", rhs="known length | truth / len() test on every way | try")
+    rep.floor("positional_accesses_on_document_sequences", n_acc, 3)
 
 
 class _NotFollowed(Exception):
